@@ -144,6 +144,49 @@ def gen_case(rng, kind="valid"):
     steps = maxd + rng.randint(3, 7)
     return dict(dt=str(dt), steps=steps, vectorize=vec, solver="heun" if kind == "heun" else "euler", nodes=nodes, edges=edges)
 
+def gen_decimal(rng):
+    """step sizes like 0.1 whose delay/dt quotients are not exact float integers (0.3/0.1 = 2.9999999999999996): values are not
+    exactly representable, so the observable is, per node, the first stored step at which its value differs from the start (each
+    target has one incoming edge, positive weight, positive source: the first change happens at step d+1). dt and the delays are
+    given to the model as the exact rationals of the floats; the model's step count is round_half_even of their exact quotient."""
+    from decimal import Decimal
+    while True:
+        dts = rng.choice(["0.1", "0.1", "0.05", "0.2", "0.01", "0.3", "0.7"])
+        dt = float(dts)
+        ns, nt = rng.randint(1, 2), rng.randint(1, 3)
+        nodes = [dict(kind="s", cls=0, x0=str(rng.randint(1, 2)), k=str(rng.randint(1, 2))) for _ in range(ns)]
+        nodes += [dict(kind="t", cls=rng.randrange(2), x0="0", k="0") for _ in range(nt)]
+        rng.shuffle(nodes)
+        S = [i for i, n in enumerate(nodes) if n["kind"] == "s"]; T = [i for i, n in enumerate(nodes) if n["kind"] == "t"]
+        edges, ok, nmax = [], True, 0
+        for t in T:
+            n = rng.randint(2, 7)
+            d = float(Decimal(dts) * n)
+            if abs(d / dt - n) > 1e-9 or rhe(Fr(d) / Fr(dt)) != n:
+                ok = False
+            nmax = max(nmax, n)
+            edges.append([rng.choice(S), t, str(rng.randint(1, 2)), str(Fr(d))])
+        if ok:
+            inexact = any(float(Fr(e[3])) / dt != round(float(Fr(e[3])) / dt) for e in edges)
+            return dict(dt=str(Fr(dt)), steps=nmax + 3, vectorize=rng.random() < 0.5, solver="euler", nodes=nodes, edges=edges,
+                        observe="first_change", inexact_quotient=inexact)
+
+def first_change(rows):
+    return [next((j for j in range(len(rows)) if Fr(rows[j][i]) != Fr(rows[0][i])), len(rows)) for i in range(len(rows[0]))]
+
+def decimal_compare(ctx, cases, outs, tag):
+    """-> (bad vs Impl, bad vs Spec, guards false) on the first-change observable"""
+    terms = []
+    for c, o in zip(cases, outs):
+        exp = clist([cnat(x) for x in first_change(o)]) if not isinstance(o, dict) else "[]"
+        terms.append(f"({coq_circuit(c)}, {cnat(c['steps'])}, {exp})")
+    body = ("Definition cases := " + clist(terms) + ".\n"
+            "Eval vm_compute in (mismatches fcI cases).\nEval vm_compute in (mismatches fcS cases).\n"
+            "Eval vm_compute in (mismatches (fun p => let '(c, n, r) := p in wf c && guards c) cases).\n")
+    ls = parse_nat_lists(coq_eval(ctx, f"c09_dec_{tag}", HEADER_FC, body))
+    assert len(ls) == 3, ls
+    return ls
+
 def nontrivial(case):
     dt = Fr(case["dt"])
     return any(e[3] not in ("nokey", "none") and rhe(Fr(e[3]) / dt) >= 2 for e in case["edges"])
@@ -156,6 +199,17 @@ Import ListNotations.
 Definition okI (p : circuit * nat * res) := let '(c, n, r) := p in res_eqb (impl_run c n) r.
 Definition okS (p : circuit * nat * res) := let '(c, n, r) := p in res_eqb (Ok (spec_run c n)) r.
 Definition gd (g : circuit -> bool) (p : circuit * nat * res) := let '(c, n, r) := p in g c.
+"""
+
+HEADER_FC = HEADER + """
+Fixpoint fc_from (v0 : Qc) (i : nat) (rows : list (list Qc)) : nat :=
+  match rows with [] => O | r :: rest => if Qceqb (nth i r 0%Qc) v0 then S (fc_from v0 i rest) else O end.
+Definition first_change (rows : list (list Qc)) : list nat :=
+  map (fun i => fc_from (nth i (hd [] rows) 0%Qc) i rows) (seq 0 (length (hd [] rows))).
+Definition list_nat_eqb (a b : list nat) : bool := Nat.eqb (length a) (length b) && forallb (fun p => Nat.eqb (fst p) (snd p)) (combine a b).
+Definition fcI (p : circuit * nat * list nat) := let '(c, n, r) := p in
+  match impl_run c n with Ok rows => list_nat_eqb (first_change rows) r | ErrIndex => false end.
+Definition fcS (p : circuit * nat * list nat) := let '(c, n, r) := p in list_nat_eqb (first_change (spec_run c n)) r.
 """
 
 def coq_circuit(case):
@@ -234,6 +288,21 @@ def check(ctx):
         cases += [gen_case(ctx.rng, "valid") for _ in range(n_valid)]
         for kind in ("sibling", "parallel", "heun", "none", "short"):
             cases += [gen_case(ctx.rng, kind) for _ in range(n_viol)]
+    dec_cases = [] if ctx.replay else [gen_decimal(ctx.rng) for _ in range(n_valid // 5)]
+    if ctx.replay and cases and cases[0].get("observe") == "first_change":
+        dec_cases, cases = cases, []
+    dec_bad = []
+    if dec_cases:
+        douts = run_impl(ctx, "c09", "impl", dec_cases, per_case_timeout=120)
+        dI, dS, dG = decimal_compare(ctx, dec_cases, douts, "main")
+        assert not dG, f"decimal stream produced guard-violating cases: {dG[:5]}"
+        dec_bad = sorted(set(dI) | set(dS) | {i for i, o in enumerate(douts) if isinstance(o, dict)})
+        ctx.note(f"decimal-step stream: {len(dec_cases)} circuits with dt like 0.1 ({sum(1 for c in dec_cases if c['inexact_quotient'])} with a "
+                 f"delay/dt float quotient that is not an integer); first-change step per node vs Impl: {len(dI)} mismatches, vs Spec: {len(dS)}")
+        for i in dec_bad[:2]:
+            violation(ctx, write_replay(ctx, "counterexample", dict(case=dec_cases[i], implementation_output=douts[i],
+                      first_change_observed=None if isinstance(douts[i], dict) else first_change(douts[i]),
+                      what="the step at which a delayed edge first delivers differs from round(delay/dt)+1 (decimal step sizes)")))
     outs = run_impl(ctx, "c09", "impl", cases, per_case_timeout=120)
     harness_err = [i for i, r in enumerate(outs) if isinstance(r, dict) and "err" in r]
     good = [i for i in range(len(cases)) if i not in harness_err]
@@ -266,14 +335,15 @@ def check(ctx):
     nt = {canon(c) for i, c in enumerate(cases) if nontrivial(c) and i in in_guard}
     dt_of = lambda c: Fr(c["dt"])
     frac_q = lambda c: sorted({str((Fr(e[3]) / dt_of(c)) % 1) for e in c["edges"] if e[3] not in ("nokey", "none")})
-    hist = dict(vectorized=sum(1 for c in cases if c["vectorize"]), heun=sum(1 for c in cases if c["solver"] == "heun"),
+    hist = dict(decimal_step_stream=len(dec_cases), decimal_inexact_quotient=sum(1 for c in dec_cases if c["inexact_quotient"]),
+                vectorized=sum(1 for c in cases if c["vectorize"]), heun=sum(1 for c in cases if c["solver"] == "heun"),
                 in_guard=len(in_guard), guard_violating={g: len(gfalse[g]) for g in GUARDS},
                 raised=sum(1 for o in outs if isinstance(o, dict) and "raised" in o),
                 delay_fraction_of_step=sorted({q for c in cases for q in frac_q(c)}),
                 several_delays_per_source=sum(1 for c in cases if any(
                     len({e[3] for e in c["edges"] if e[0] == s and e[3] != "nokey"}) > 1 for s in range(len(c["nodes"])))),
                 edges=sum(len(c["edges"]) for c in cases), attributed=res["attributed"])
-    write_evidence(ctx, evaluations=len(cases), distinct_nontrivial=len(nt),
+    write_evidence(ctx, evaluations=len(cases) + len(dec_cases), distinct_nontrivial=len(nt),
                    rule="random two-layer delayed circuits (1-3 sources x' = k with non-zero start, 1-4 integrator targets, two structural "
                         "classes, 1-8 edges, dt in {1/4,1/8,1/16}, delays (k+q/4)*dt, vectorize on/off, Euler) run with run(); all "
                         "trajectories compared as exact rationals with Ring.impl_run and Ring.spec_run evaluated inside Coq; a case is "
